@@ -68,17 +68,22 @@ def root_local(fn, local, bb, idx, depth):
     return None
 
 
+class Decoy:
+    def __init__(self, host, rv, callees, fresh):
+        self.host, self.rv, self.callees, self.fresh = host, rv, callees, fresh
+
+
 class Issuer:
     def __init__(self, ctx, fx, rule):
         self.fx = fx
         self.ok = False
-        self.issue = fx.fn(ISSUE)
+        self.issue = fx.view(ISSUE) if fx.fn(ISSUE) is not None else None
         if self.issue is None:
             ctx.missing(rule, ISSUE, "entry point not found")
             return
         self.g = cg.build(fx)
         self.reach = cg.reachable_from(self.g, [ISSUE])
-        self.fns = [fx.fns[n] for n in sorted(self.reach) if not fx.fns[n].is_macro_generated()]
+        self.fns = [fx.view(n) for n in sorted(self.reach) if not fx.fns[n].is_macro_generated()]
         self.disc_new = fx.fn(DISC_NEW)
         self.disc_ctors = set(n for n, f in fx.fns.items() if not f.is_macro_generated() and (f.raw.get("ret_ty") or "") == "disclosure::SDJWTDisclosure")
         # object builder: inserts the constant key "_sd" with an Array value built from a local Vec<String>
@@ -135,9 +140,39 @@ class Issuer:
         v = peel(v)
         return v.kind == "field" and v.d.get("name") == "hash" and peel(v.kids[0]).kind == "call" and peel(v.kids[0]).d["term"].get("resolved") in self.disc_ctors
 
+    def decoy_of(self, fn, v, push_bb=None):
+        """a value pushed into `_sd` that is not a disclosure's hash, described uniformly whether the decoy is produced by a crate-local
+        function (not inlined: public / recursive / kept) or in line (the helper was dissolved by the view, or never existed):
+        returns Decoy(host, rv, callees, fresh) or None.  host = function the form is reported against; rv = the value to judge;
+        callees = crate-local functions the value's computation can reach; fresh(call_node) = the call happens once per pushed decoy"""
+        import cfg as _cfg
+        v = peel(v)
+        if self.is_disclosure_hash(v):
+            return None
+        dfn = self.decoy_fn_of(v)
+        if dfn is not None:
+            dv = self.fx.view(dfn.name)
+            names = cg.reachable_from(self.g, [dfn.name])
+            return Decoy(dv, vals(dv).return_value(), names, lambda y, dv=dv: y.fn is dv)
+        if v.kind != "call":
+            return None
+        names = set()
+        for x in walk(v):
+            if x.kind == "call" and x.d["term"].get("resolved_local") and x.d["term"].get("resolved") in self.fx.fns:
+                names |= cg.reachable_from(self.g, [x.d["term"]["resolved"]])
+
+        def fresh(y, fn=fn, push_bb=push_bb):
+            if y.fn is not fn or push_bb is None or y.d.get("bb") is None:
+                return False
+            yb = y.d["bb"]
+            # the call lies on every way round the loop that reaches the push again: one call per pushed value
+            return push_bb in _cfg.reachable(fn, [yb]) and (push_bb not in _cfg.reach_strict(fn, push_bb) or push_bb not in _cfg.reach_strict(fn, push_bb, removed_blocks=[yb]))
+        return Decoy(fn, v, names, fresh)
+
     def decoy_fn_of(self, v):
         v = peel(v)
-        if v.kind == "call" and v.d["term"].get("resolved_local") and v.d["term"].get("resolved") in self.fx.fns and v.d["term"].get("resolved") not in self.disc_ctors:
+        if v.kind == "call" and v.d["term"].get("resolved_local") and v.d["term"].get("resolved") in self.fx.fns and v.d["term"].get("resolved") not in self.disc_ctors \
+                and not v.d["term"]["resolved"].startswith(("utils::", "disclosure::")):
             return self.fx.fns[v.d["term"]["resolved"]]
         return None
 
